@@ -243,10 +243,17 @@ func Anchor(t *rapid.T, h *History, o AnchorOpts) []*hist.Anchored {
 		nums[0], nums[best] = nums[best], nums[0]
 		unpub[0] = false
 	}
+	earlyUnpub := o.Unpublished && rapid.Bool().Draw(t, "unpublishedBeforeLedgerTimes")
 	out := make([]*hist.Anchored, n)
 	for i, op := range h.Ops {
 		if unpub[i] {
-			out[i] = op.At(100000+uint64(perm[i]), 0, "", 0)
+			// unpublished operations carry the wall-clock time of their submission, which may lie before or after the
+			// ledger times of the published ones
+			ut := 100000 + uint64(perm[i])
+			if earlyUnpub {
+				ut = uint64(perm[i])
+			}
+			out[i] = op.At(ut, 0, "", 0)
 		} else {
 			out[i] = op.At(times[i], nums[i], fmt.Sprintf("ref-%d", i), 0)
 		}
